@@ -57,6 +57,9 @@ fn alma_params(spec: &Spec) -> (f64, f64) {
 fn check_tree<T: Scalar>(spec: &Spec, alpha: &[f64], depth: usize, st: &mut Stats, sink: &Sink) {
     let n = spec.n;
     let c0 = T::inexact();
+    if build_or_report::<T>("C04", spec, sink).is_none() {
+        return;
+    }
     let root = S::<T> {
         base: build::<T>(spec),
         aff: AFF.iter().map(|_| build::<T>(spec)).collect(),
